@@ -59,7 +59,7 @@ def check_C09(run):
     if run.tier == "quick":
         lexical_variants(run, "C09", 3, 4, 20000)
     else:
-        lexical_variants(run, "C09", 3, 6, 300000)   # length 4 over the 54-symbol alphabet (8.5M sequences x variants) does not finish in an hour
+        lexical_variants(run, "C09", 3, 5, 300000)   # length 4 over the 54-symbol alphabet (8.5M sequences x variants) and length 6 over the 14-symbol sub-alphabet (7.5M x variants) do not finish in an hour
     run.exhaustive = True
     run.notes.append("layout variants of every symbol sequence up to the length bound (lead / trail / every gap / all + keyword case), "
                      "whitespace kind chosen with seed %d" % run.seed)
